@@ -1188,8 +1188,9 @@ async def _actor_scenario(case, loop):
                 log.append(["req", arg, env.clk()])
                 await req_sender.send(req)
             elif kind == "close":
-                log.append(["close", arg, env.clk()])
-                await src_chans[arg].close()
+                if arg in src_chans:
+                    log.append(["close", arg, env.clk()])
+                    await src_chans[arg].close()
             elif kind == "send":
                 sid, x = arg
                 if sid in src_chans and not src_chans[sid].is_closed:
@@ -1296,7 +1297,7 @@ def gen_actor_case(rng, tier):
             if at - 3 <= m["req_at"] <= at + down + 3:
                 m["req_at"] = at + down + p // 2 // 1000 * 1000 + res[0]
                 m.pop("yields", None)
-            if m.get("close_at") is not None and at - 3 <= m["close_at"] <= at + down + 3:
+            if m.get("close_at") is not None and (at - 3 <= m["close_at"] <= at + down + 3 or m["close_at"] <= m["req_at"] + p):
                 m.pop("close_at")
     return {"period": p, "align": align, "start": start, "loop_t0": loop_t0, "duration": duration,
             "metrics": metrics, "hogs": hogs, "restarts": restarts, "align_tz": align_tz, "tag": {"align": kind}}
